@@ -1,8 +1,141 @@
-import Lean.Data.Json
-/- stub: the C02 driver is not built yet -/
-namespace Glom.C02.Driver
-open Lean
+import Glom.Py.PV
+import Glom.Spec.C02
+import Glom.Model.C02Env
+import Glom.Model.C02Prim
+/-
+  C02 driver: one JSON case in, one JSON verdict out.
 
-def run (_j : Json) : Except String Json := .error "property C02: driver not implemented yet"
+  case:  {"target": PV,
+          "expr": E,      E ::= {"lit": PV} | {"T": [[dunder, E]…]} | {"Spec": E} | {"list": [E…]}
+                               | {"tuple": [E…]} | {"dict": [[E, E]…]}
+                               | {"call": {"args": [E…], "kwargs": [[name, E]…]}}
+          "impl":   {"ok": PV} | {"pae": {"idx": n, "exc": cls, "glom": b}} | {"other": cls},
+          "direct": {"ok": PV} | {"fail": {"k": n, "kind": name, "exc": cls}} | {"raised": cls} }
+
+  `impl` is what glom.glom(target, expr) did; `direct` is what the same chain of
+  operations did when the harness applied it to the target with Python's own
+  operators.  Three-way comparison:
+    * `holds`  = checkC02 (the theorem's checker) on the implementation's observation,
+                 against the reference outcome computed here in Lean with `pvPrim`;
+    * the Lean reference must equal Python's `direct` outcome (this validates the
+      kernel's primitives; if they differ Python's outcome is the reference and
+      the case is reported as a disagreement);
+    * `agree`  = the code-shaped model (`record` + `tEval` on the regenerated
+                 tables) produces the implementation's observation.
+-/
+namespace Glom.C02.Driver
+open Lean Glom Glom.C02
+
+partial def exprOfJson (j : Json) : Except String (E PV) := do
+  if let .ok v := j.getObjVal? "lit" then return .lit (← pvOfJson v)
+  else if let .ok (.arr a) := j.getObjVal? "T" then
+    return .texpr (← a.toList.mapM (fun s => match s with
+      | .arr #[.str d, x] => do return (d, ← exprOfJson x)
+      | _ => throw s!"bad step {s.compress}"))
+  else if let .ok x := j.getObjVal? "Spec" then return .spec (← exprOfJson x)
+  else if let .ok (.arr a) := j.getObjVal? "list" then return .list (← a.toList.mapM exprOfJson)
+  else if let .ok (.arr a) := j.getObjVal? "tuple" then return .tuple (← a.toList.mapM exprOfJson)
+  else if let .ok (.arr a) := j.getObjVal? "dict" then
+    return .dict (← a.toList.mapM (fun s => match s with
+      | .arr #[k, v] => do return (← exprOfJson k, ← exprOfJson v)
+      | _ => throw s!"bad entry {s.compress}"))
+  else if let .ok c := j.getObjVal? "call" then
+    let args ← match c.getObjVal? "args" with
+      | .ok (.arr a) => a.toList.mapM exprOfJson
+      | _ => throw "bad call args"
+    let kwargs ← match c.getObjVal? "kwargs" with
+      | .ok (.arr a) => a.toList.mapM (fun s => match s with
+        | .arr #[.str k, v] => do return (k, ← exprOfJson v)
+        | _ => throw s!"bad kwarg {s.compress}")
+      | _ => throw "bad call kwargs"
+    return .cargs args kwargs
+  else throw s!"bad expr {j.compress}"
+
+def obsOfJson (j : Json) : Except String (Obs PV) := do
+  if let .ok v := j.getObjVal? "ok" then return .ok (← pvOfJson v)
+  else if let .ok p := j.getObjVal? "pae" then
+    return .pae (← p.getObjValAs? Nat "idx") (← p.getObjValAs? String "exc")
+      (← p.getObjValAs? Bool "glom")
+  else if let .ok c := j.getObjValAs? String "other" then return .other c
+  else throw s!"bad obs {j.compress}"
+
+def obsToJson : Obs PV → Json
+  | .ok v => Json.mkObj [("ok", pvToJson v)]
+  | .pae k c g => Json.mkObj [("pae", Json.mkObj [("idx", k), ("exc", c), ("glom", g)])]
+  | .other c => Json.mkObj [("other", c)]
+
+def kindName (k : Kind) : String :=
+  match kindNames.find? (·.2 == k) with
+  | some (n, _) => n
+  | none => "other"
+
+def refOfJson (j : Json) : Except String (Except RefErr PV) := do
+  if let .ok v := j.getObjVal? "ok" then return .ok (← pvOfJson v)
+  else if let .ok p := j.getObjVal? "fail" then
+    return .error (.opFail (← p.getObjValAs? Nat "k") (Kind.ofString (← p.getObjValAs? String "kind"))
+      ⟨← p.getObjValAs? String "exc"⟩)
+  else if let .ok c := j.getObjValAs? String "raised" then return .error (.raised ⟨c⟩)
+  else throw s!"bad direct {j.compress}"
+
+def refToJson : Except RefErr PV → Json
+  | .ok v => Json.mkObj [("ok", pvToJson v)]
+  | .error (.opFail k kind e) =>
+    Json.mkObj [("fail", Json.mkObj [("k", k), ("kind", kindName kind), ("exc", e.cls)])]
+  | .error (.raised e) => Json.mkObj [("raised", e.cls)]
+  | .error .unsupported => Json.mkObj [("unsupported", true)]
+
+def refEq : Except RefErr PV → Except RefErr PV → Bool
+  | .ok a, .ok b => a == b
+  | .error a, .error b => a == b
+  | _, _ => false
+
+def lastDunder : E PV → String
+  | .texpr steps => match steps.getLast? with
+    | some (d, _) => d
+    | none => "T"
+  | _ => "?"
+
+def primUnsupported : Except RefErr PV → Bool
+  | .error (.opFail _ _ e) => e.cls == "<unsupported>"
+  | .error (.raised e) => e.cls == "<unsupported>"
+  | _ => false
+
+def run (j : Json) : Except String Json := do
+  let target ← pvOfJson (← j.getObjVal? "target")
+  let e ← exprOfJson (← j.getObjVal? "expr")
+  let implObs ← obsOfJson (← j.getObjVal? "impl")
+  let direct ← refOfJson (← j.getObjVal? "direct")
+  let F := genFacts
+  let leanRef := refEval pvPrim e target
+  if refEq leanRef (.error .unsupported) then
+    return Json.mkObj [("skip", true), ("why", "expression outside the C02 fragment")]
+  let modelObs : Obs PV := match record F pvPrim.none e with
+    | some o => observe F (tEval F pvPrim o target)
+    | none => .other "<no overload>"
+  if primUnsupported leanRef then
+    -- the kernel has no definition for a primitive used here: only the property is
+    -- evaluated, against Python's own outcome
+    let holds := checkObs direct implObs
+    return Json.mkObj [("agree", true), ("holds", holds), ("model", obsToJson modelObs),
+      ("lean_ref", refToJson leanRef), ("branch", "prim-outside-kernel"),
+      ("why", if holds then "" else "implementation differs from the chain applied directly in Python")]
+  let primOk := refEq leanRef direct
+  let ref := if primOk then leanRef else direct
+  let holds := checkObs ref implObs
+  let modelHolds := checkObs leanRef modelObs
+  let agree := primOk && modelHolds && modelObs == implObs
+  let why :=
+    (if holds then "" else "property fails on the implementation's observation; ") ++
+    (if primOk then "" else "Lean primitives differ from Python's direct evaluation; ") ++
+    (if modelHolds then "" else "model fails its own checker; ") ++
+    (if modelObs == implObs then "" else "model differs from implementation; ")
+  let branch := match leanRef with
+    | .ok _ => s!"ok:{lastDunder e}"
+    | .error (.opFail _ kind x) => s!"fail:{kindName kind}:{x.cls}"
+    | .error (.raised x) => s!"argfail:{x.cls}"
+    | .error .unsupported => "unsupported"
+  return Json.mkObj [("agree", agree), ("holds", holds), ("model_holds", modelHolds),
+    ("prim_ok", primOk), ("wf", WF F), ("model", obsToJson modelObs),
+    ("lean_ref", refToJson leanRef), ("branch", branch), ("why", why)]
 
 end Glom.C02.Driver
